@@ -160,8 +160,8 @@ func (t *Trie) lookupEmitter(query Ssid, subs *Subscribers, node *node, filter f
 		t.lookupEmitter(query[1:], subs, n, filter)
 	}
 
-	// Go through wildcard match branch
-	if n, ok := node.children[wildcard]; ok {
+	// Go through wildcard match branch (unless the exact match just went through it)
+	if n, ok := node.children[wildcard]; ok && query[0] != wildcard {
 		t.lookupEmitter(query[1:], subs, n, filter)
 	}
 }
@@ -179,8 +179,8 @@ func (t *Trie) lookupMqtt(query Ssid, subs *Subscribers, node *node, filter func
 		t.lookupMqtt(query[1:], subs, n, filter)
 	}
 
-	// Go through wildcard match branch
-	if n, ok := node.children[wildcard]; ok {
+	// Go through wildcard match branch (unless the exact match just went through it)
+	if n, ok := node.children[wildcard]; ok && query[0] != wildcard {
 		t.lookupMqtt(query[1:], subs, n, filter)
 	}
 
